@@ -327,10 +327,8 @@ func scalarOnce(t *rapid.T, o ScalarOpts, label string) *model.Node {
 					}
 				}
 			}
-		case 3: // or
-			if kind != "null" {
-				n.Rules = append(n.Rules, model.R("or", model.List(orAlternatives(t, n, o, label)...)))
-			}
+		case 3: // or (also next to a null example: "nothing, or one of these")
+			n.Rules = append(n.Rules, model.R("or", model.List(orAlternatives(t, n, o, label)...)))
 		case 4:
 			if kind != "null" && rapid.Bool().Draw(t, label+"any") {
 				n.Rules = append(n.Rules, model.R("type", model.Str("any")))
